@@ -198,6 +198,15 @@ def gen_cases(tier, seed):
                 o[f] = rnd.choice(fam[f])
         sel = rnd.sample(["ALB", "SLV", "ECU"], rnd.choice([1, 2])) + rnd.sample(tabs, 8 if tier == "quick" else 20)
         cases.append({"kind": "batch", "countries": sel, "opts": o, "id": "batch#%d" % j})
+    # the demand series as the feed-maximising round receives them (real runs up to that round): the biofuel cap is the documented
+    # demand series itself, the feed cap never exceeds the documented feed demand; option corners included (culled meat eaten or
+    # not x storage regime x schedule)
+    for j in range(8 if tier == "quick" else 96):
+        o = workload.base_country(cull=["do_eat_culled", "dont_eat_culled"][j % 2], ratio_stocks_untouched=workload.FAMILIES_COMMON["ratio_stocks_untouched"][(j // 2) % len(workload.FAMILIES_COMMON["ratio_stocks_untouched"])],
+                                  shutoff=["long_delayed_shutoff", "continued", "short_delayed_shutoff", "continued_after_10_percent_fed"][(j // 4 + j) % 4], NMONTHS=[120, 72, 48][j % 3],
+                                  scenario=["no_resilient_foods", "all_resilient_foods"][(j // 3) % 2])
+        iso = (["USA", "BRA", "DEU", "ARG", "IND", "FRA", "CHN", "IDN"][j % 8] if j < 16 else rnd.choice(isos))
+        cases.append({"kind": "second_round", "iso": iso, "opts": o, "id": "second_round/%s#%d" % (iso, j)})
     n = 40 if tier == "quick" else 1600
     for cls in ("outdoor_crops", "seafood", "stored_food", "methane_scp", "cellulosic_sugar", "seaweed", "feed_and_biofuels", "grass"):
         for k in range(n // 4 if tier == "quick" else n // 4):
@@ -673,7 +682,35 @@ def batch(case):
                                   "scenario": submitted.get("scenario"), "crops_compared": False, "viol_counts": dict(seen), "failed": failed}}
 
 
+def second_round(case):
+    tr = capture.run_pipeline({"kind": "pipeline", "iso": case["iso"], "opts": case["opts"], "tag": case["id"]})
+    viol, n = [], 0
+    N = case["opts"]["NMONTHS"]
+    if tr.second is not None and tr.second[1][0] is not None and tr.first is not None:
+        inp = tr.second[0][0]
+        t2 = tr.second[1][1]
+        for name, key, dur in (("biofuel", "BIOFUEL_KCALS", "BIOFUEL_SHUTOFF_MONTHS"), ("feed", "FEED_KCALS", "FEED_SHUTOFF_MONTHS")):
+            want = ref_demand(inp[key], inp["DELAY"][dur], N)
+            got = np.asarray(t2["max_%s_that_could_be_used" % name].kcals, float)
+            n += 1
+            sc = max(1e-300, float(np.abs(want).max()))
+            if len(got) != N:
+                viol.append({"mech": "series_wrong_length", "msg": "%s second-round %s cap: %d values for %d months" % (case["iso"], name, len(got), N), "data": {"iso": case["iso"], "series": "second_round_" + name}})
+            elif name == "biofuel" and np.abs(got - want).max() > REL * sc:
+                m = int(np.abs(got - want).argmax())
+                viol.append({"mech": "second_round_demand_differs_from_documented_formula", "msg": "%s second-round biofuel cap month %d: %.10g, documented demand %.10g (cull=%s, stocks=%s, shutoff=%s)" % (
+                    case["iso"], m, got[m], want[m], case["opts"]["cull"], case["opts"]["ratio_stocks_untouched"], case["opts"]["shutoff"]), "data": {"iso": case["iso"], "series": "second_round_biofuel", "month": m}})
+            elif name == "feed" and (got - want).max() > REL * sc:
+                m = int((got - want).argmax())
+                viol.append({"mech": "second_round_demand_differs_from_documented_formula", "msg": "%s second-round feed cap month %d: %.10g exceeds the documented demand %.10g" % (case["iso"], m, got[m], want[m]),
+                             "data": {"iso": case["iso"], "series": "second_round_feed", "month": m}})
+    return {"viol": viol, "obs": {"first_round": True, "second_round": True, "iso": case["iso"], "N": N, "audited": n, "maxres": {}, "scenario": case["opts"].get("scenario"), "crops_compared": False,
+                                  "viol_counts": {}, "failed": tr.error}}
+
+
 def run_case(case, tier):
+    if case["kind"] == "second_round":
+        return second_round(case)
     if case["kind"] == "first_round":
         return first_round(case)
     if case["kind"] == "batch":
@@ -701,6 +738,7 @@ def summarize(cases, records, tier):
         "rule": "first-round cases: (country, supply-affecting option vector, horizon) with every returned series compared with its documented closed form (non-trivial = crop series compared, i.e. no relocation/greenhouse); "
                 "direct cases: generated constants per food_system class incl. a scaling re-run (non-trivial = non-zero series); evaluations = series compared",
         "samples": [{k: r["obs"].get(k) for k in ("iso", "N", "scenario", "audited", "maxres")} for r in fr_ok[:: max(1, len(fr_ok) // 5)]][:6] + [{"direct": r["obs"]["direct"], "examples": r["obs"]["examples"]} for r in dr[:3]],
+        "second_round_caps_compared": int(sum(r["obs"]["audited"] for r in fr_ok if r["obs"].get("second_round"))),
         "multi_country_calls": sum(1 for r in fr_ok if r["obs"].get("batch")), "countries_audited_inside_multi_country_calls": int(sum(r["obs"].get("countries_in_call", 0) for r in fr_ok)),
         "series_compared_with_and_without_production_multiplier": int(sum(r["obs"].get("multiplier_pairs", 0) for r in fr_ok)),
         "first_round_runs": len(fr_ok), "first_round_failed": len(fr) - len(fr_ok), "countries": len({r["obs"]["iso"] for r in fr_ok}),
